@@ -5,7 +5,7 @@
 //! `F <json>` for a case that does not conform, `DONE <cases> <failed>` at the end.
 use serde_json::Value;
 use std::io::{BufRead, Write};
-use tdverif::cells::{Elem, Zst, B3, K32};
+use tdverif::cells::{Elem, Tok, Zst, B3, K32};
 use tdverif::util::silence_panics;
 
 fn main() {
@@ -54,6 +54,7 @@ fn main() {
                     "u32" => tdverif::hist::run_case::<K32>(steps, cap, &mut events),
                     "b3" => tdverif::hist::run_case::<B3>(steps, cap, &mut events),
                     "zst" => tdverif::hist::run_case::<Zst>(steps, cap, &mut events),
+                    "tok" => tdverif::hist::run_case::<Tok>(steps, cap, &mut events),
                     e => panic!("unknown elem {e}"),
                 };
                 if let Some(lf) = logfile.as_mut() {
